@@ -69,24 +69,29 @@ def quote (s : Str) : Str :=
 
 def isOct (c : Char) (hi : Nat) : Bool := 48 ≤ c.toNat && c.toNat ≤ 48 + hi
 
+def octVal (a b c : Char) : Char :=
+  Char.ofNat ((a.toNat - 48) * 64 + (b.toNat - 48) * 8 + (c.toNat - 48))
+
 /-- the scanning loop of `_unquote` on the text between the quotes: at the first backslash that
 is followed by a character other than a newline (`_QuotePatt = [\\].`) an octal triple
 `\\[0-3][0-7][0-7]` is decoded if it starts there, otherwise the next character is taken
-literally -/
-def unquoteBody : Str → Str
-  | [] => []
-  | x :: r =>
-    if x == '\\' then
-      match r with
-      | a :: b :: c :: r' =>
-        if a == '\n' then '\\' :: unquoteBody (a :: b :: c :: r')
-        else if isOct a 3 && isOct b 7 && isOct c 7 then
-          Char.ofNat ((a.toNat - 48) * 64 + (b.toNat - 48) * 8 + (c.toNat - 48)) :: unquoteBody r'
-        else a :: unquoteBody (b :: c :: r')
-      | a :: r' => if a == '\n' then '\\' :: unquoteBody (a :: r') else a :: unquoteBody r'
-      | [] => [x]
-    else x :: unquoteBody r
-termination_by s => s.length
+literally.  (`fuel` only makes the recursion structural; `unquoteBody` supplies enough.) -/
+def unquoteGo : Nat → Str → Str
+  | 0, _ => []
+  | _ + 1, [] => []
+  | f + 1, x :: t =>
+    if x != '\\' then x :: unquoteGo f t else
+    match t with
+    | [] => [x]
+    | a :: t1 =>
+      if a == '\n' then '\\' :: unquoteGo f t
+      else match t1 with
+        | b :: c :: t3 =>
+          if isOct a 3 && isOct b 7 && isOct c 7 then octVal a b c :: unquoteGo f t3
+          else a :: unquoteGo f t1
+        | _ => a :: unquoteGo f t1
+
+def unquoteBody (s : Str) : Str := unquoteGo s.length s
 
 /-- `_unquote(s)` -/
 def unquote (s : Str) : Str :=
